@@ -38,7 +38,15 @@ def p_bundle_id_scope_mismatch(v):
         return False
     if not (sig[2] == "bundle-identifiers" or sig[2].startswith("read-raised")):
         return False
-    return bool(v.get("facts", {}).get("bundle_keys_printed_identically"))
+    facts = v.get("facts", {})
+    if not facts.get("bundle_keys_printed_identically"):
+        return False
+    if sig[2] == "bundle-identifiers":
+        # only the colliding bundles may be the ones that went missing / changed
+        b = (v.get("detail") or {}).get("bundles") or {}
+        diff = set(b.get("expected", [])) ^ set(b.get("got", []))
+        return bool(diff) and diff <= set(facts.get("colliding_bundle_uris", []))
+    return True
 
 
 def p_conflated_association(v):
@@ -47,7 +55,16 @@ def p_conflated_association(v):
     sig = v.get("signature", [])
     if len(sig) < 3 or sig[2] != "content":
         return False
-    return bool(v.get("facts", {}).get("conflated_association_or_delegation"))
+    if not v.get("facts", {}).get("conflated_association_or_delegation"):
+        return False
+    # every record in the difference must be an association / delegation
+    d = v.get("detail") or {}
+    diffs = []
+    for key in ("document_records", "bundle_records"):
+        part = d.get(key)
+        if isinstance(part, dict):
+            diffs += list(part.get("only_left", [])) + list(part.get("only_right", []))
+    return bool(diffs) and all(("prov#Association'" in x) or ("prov#Delegation'" in x) for x in diffs)
 
 
 PREDICATES = {"never": p_never, "bundle_id_scope_mismatch": p_bundle_id_scope_mismatch,
